@@ -104,9 +104,11 @@ theorem runOp_downOpen {σ' : Type} (m : Machine σ' α β) (mode : SrcMode) (su
     induction l with
     | nil => intro r h; exact h
     | cons x xs ih => intro r h; exact ih _ (feed_downOpen m mode r x h)
+  have h0' : ((m.start sub).afterSubscribe mode).downOpen = !hasTerm ((m.start sub).afterSubscribe mode).out := by
+    unfold RunSt.afterSubscribe; split <;> exact h0
   unfold runOp
   split
-  · exact hf raw _ h0
+  · exact hf raw _ h0'
   · exact h0
 
 /-! ### the first failing invocation -/
